@@ -13,7 +13,7 @@ from __future__ import annotations
 
 import ast
 
-from .. import alg, flow
+from .. import alg, flow, fin
 from ..alg import Undecided, sym, num, add, sub, mul, div
 from ..core import AnalysisError, dotted, unparse, params, all_params, walk_no_nested, strip_docstring, literal
 from ..seriesmodel import SeriesModel
@@ -215,6 +215,60 @@ def trim_summaries(model):
     return trimming, dirtying, nondirty
 
 
+class _Rows:
+    """abstract data array: the rows [lo, hi) of the original array"""
+    _fin_attrs = ("size", "shape")
+
+    def __init__(self, lo, hi):
+        self.lo, self.hi = lo, max(lo, hi)
+
+    @property
+    def size(self):
+        return self.hi - self.lo
+
+    @property
+    def shape(self):
+        return (self.hi - self.lo, 1)
+
+    def __getitem__(self, idx):
+        sl = idx[0] if isinstance(idx, tuple) else idx
+        if not isinstance(sl, slice) or (isinstance(idx, tuple) and any(x is not Ellipsis and x != slice(None) for x in idx[1:])):
+            raise fin.NotFinite("only row slices of the data are modelled")
+        a, b, step = sl.indices(self.hi - self.lo)
+        if step != 1:
+            raise fin.NotFinite("strided slice")
+        return _Rows(self.lo + a, self.lo + b)
+
+
+def _trim_by_evaluation(f):
+    """trim() evaluated by the checker on every (rows, leading missing, trailing missing) with rows <= 4: afterwards the data are exactly
+    the rows between the first and the last observation and the start has advanced by the number of leading missing rows; empty and
+    all-missing series are reset."""
+    cases = 0
+    try:
+        for n in range(0, 5):
+            combos = [(l, t_) for l in range(0, n + 1) for t_ in range(0, n + 1) if l + t_ < n] + ([(n, n)] if n > 0 else [(0, 0)])
+            for lead, trail in combos:
+                reset = []
+                env = {"self": "SELF", "self.data": _Rows(0, n), "self.start": 100}
+                funcs = {"_get_num_leading_trailing_missing_rows": lambda d, lead=lead, trail=trail: (lead, trail),
+                         "self.reset": lambda reset=reset: reset.append(True)}
+                final = {}
+                fin.run_function(f, {}, funcs=funcs, env=env, final_env=final)
+                cases += 1
+                if n == 0 or (lead, trail) == (n, n):
+                    if not reset:
+                        return False, f"rows={n}, leading={lead}, trailing={trail}: an empty / all-missing series is not reset"
+                    continue
+                d = final["self.data"]
+                if reset or (d.lo, d.hi) != (lead, n - trail) or final["self.start"] != 100 + lead:
+                    return False, (f"rows={n}, leading={lead}, trailing={trail}: data become rows [{d.lo}, {d.hi}) and the start moves by "
+                                   f"{final['self.start'] - 100} (want rows [{lead}, {n - trail}), start + {lead})")
+    except fin.NotFinite as ex:
+        return None, f"trim not evaluable: {ex}"
+    return True, f"{cases} cases (rows 0..4 x leading x trailing): data = rows between first and last observation, start advanced by the leading count, empty/all-missing reset"
+
+
 def rule_r1(chk, model):
     chk.rule("C10-R1", "trim typestate on all paths: from a clean receiver, every normal exit of each write/arithmetic entry point "
              "leaves the receiver and every fresh Series it built clean (last store followed by trim(), directly or via a callee "
@@ -241,14 +295,8 @@ def rule_r1(chk, model):
     # trim arithmetic
     t = model.methods["trim"]
     chk.saw(t.mod, t.qual)
-    src = unparse(t.node).replace(" ", "")
-    ok = ("num_leading,num_trailing=_get_num_leading_trailing_missing_rows(self.data)" in src and "slice_from=num_leadingorNone" in src
-          and "slice_to=-num_trailingifnum_trailingelseNone" in src and "self.data=self.data[slice_from:slice_to,...]" in src
-          and "ifslice_from:" in src and "self.start+=int(slice_from)" in src)
-    chk.ob("C10-R1", "series.Series.trim[slice arithmetic]", ok,
-           "data[leading : -trailing]; start advanced by leading; all-missing and empty reset to the empty series", t.loc())
-    ok = "ifself.data.size==0:self.reset()" in src.replace("\n", "") and "ifnum_trailing==self.data.shape[0]:self.reset()" in src.replace("\n", "")
-    chk.ob("C10-R1", "series.Series.trim[all-missing -> empty]", ok, "an all-missing result becomes the empty series (start None)", t.loc())
+    ok, trim_detail = _trim_by_evaluation(t.node)
+    chk.ob("C10-R1", "series.Series.trim[slice arithmetic]", ok, trim_detail, t.loc())
     g = model.functions.get(("main", "_get_num_leading_trailing_missing_rows"))
     if g is None:
         raise AnalysisError("anchor vanished: _get_num_leading_trailing_missing_rows")
